@@ -74,13 +74,18 @@ func (r *MixedIndentationRule) Check(ctx *linter.Context) ([]linter.Violation, e
 	// Track the first indentation type we encounter
 	var firstIndentType string // "tab" or "space"
 
+	m := linter.LexMap(strings.Join(ctx.Lines, "\n"))
+	off := 0
 	for lineNum, line := range ctx.Lines {
+		lineMap := m[off : off+len(line)]
+		off += len(line) + 1
 		if len(line) == 0 {
 			continue
 		}
 
-		// Get leading whitespace
-		leadingWhitespace := getLeadingWhitespace(line)
+		// Get leading whitespace (blanks that begin a line inside a multi-line literal or
+		// block comment are content of that construct, not indentation)
+		leadingWhitespace := getLeadingWhitespace(line, lineMap)
 		if len(leadingWhitespace) == 0 {
 			continue
 		}
@@ -144,13 +149,16 @@ func (r *MixedIndentationRule) Check(ctx *linter.Context) ([]linter.Violation, e
 // Returns the fixed content with consistent space-based indentation, and nil error.
 func (r *MixedIndentationRule) Fix(content string, violations []linter.Violation) (string, error) {
 	lines := strings.Split(content, "\n")
+	m := linter.LexMap(content)
 
+	off := 0
 	for i, line := range lines {
 		// Replace tabs with 4 spaces in leading whitespace only
-		leadingWhitespace := getLeadingWhitespace(line)
+		leadingWhitespace := getLeadingWhitespace(line, m[off:off+len(line)])
+		off += len(line) + 1
 		if len(leadingWhitespace) > 0 {
 			fixed := strings.ReplaceAll(leadingWhitespace, "\t", "    ")
-			lines[i] = fixed + strings.TrimLeft(line, " \t")
+			lines[i] = fixed + line[len(leadingWhitespace):]
 		}
 	}
 
@@ -161,10 +169,12 @@ func (r *MixedIndentationRule) Fix(content string, violations []linter.Violation
 //
 // Returns all consecutive spaces and tabs from the start of the line until the
 // first non-whitespace character. If the entire line is whitespace, returns the
-// full line.
-func getLeadingWhitespace(line string) string {
-	for i, char := range line {
-		if char != ' ' && char != '\t' {
+// full line. Only blanks that are code count: m holds the lexical class of every
+// byte of the line, and a line that begins inside a multi-line string literal,
+// quoted identifier or block comment has no indentation.
+func getLeadingWhitespace(line string, m []linter.LexClass) string {
+	for i := 0; i < len(line); i++ {
+		if (line[i] != ' ' && line[i] != '\t') || m[i] != linter.LexCode {
 			return line[:i]
 		}
 	}
